@@ -567,3 +567,9 @@ MUTATIONS += [
     dict(id="C08-check-pack-queued-with-index-size", prop="C08", file=RIXF, old="                            Some(PackHeaderRef::from_index_pack(&p).size()),\n                            size,", new="                            Some(PackHeaderRef::from_index_pack(&p).size()),\n                            index_size,"),
     dict(id="C04-from-file-longer-pack-accepted", prop="C04", file=PFILE, old="header.pack_size() != pack_size", new="header.pack_size() > pack_size"),
 ]
+
+KFF = "crates/core/src/repofile/keyfile.rs"
+MUTATIONS += [
+    dict(id="C04-generate-params-swapped", prop="C04", file=KFF, old="            r: params.r(),\n            p: params.p(),", new="            r: params.p(),\n            p: params.r(),"),
+    dict(id="C04-generate-salt-after-derivation", prop="C04", file=KFF, old="        let key = Key::from_slice(&key);\n\n        let json_byte_vec", new="        let key = Key::from_slice(&key);\n        rng().fill_bytes(&mut salt);\n\n        let json_byte_vec"),
+]
